@@ -359,7 +359,7 @@ static int ref_check_item(const struct witem *w, const struct xitem *x, const ui
 
 /* ------------------------------------------------------------------ decoding with the real decoder -------- */
 enum { M_PEEK_POP = 0, M_POP = 1, M_WRONG_FIRST = 2, M_SINGLE = 3 };
-static const char *mode_name[] = {"peek+pop", "pop", "wrong-typed-pop-then-pop", "consume_single"};
+static const char *mode_name[] = {"peek+pop", "pop", "two-wrong-typed-pops-then-pop", "consume_single"};
 
 /* pops item x (style mode); returns 1 ok */
 static int dec_item(struct aws_cbor_decoder *d, const struct witem *w, const struct xitem *x, int mode, int i, const char *prog) {
@@ -384,6 +384,16 @@ static int dec_item(struct aws_cbor_decoder *d, const struct witem *w, const str
         if (rc == AWS_OP_SUCCESS) FAILR("dec-wrong-type-accepted", "[%s] item %d (%s): a pop for a different type succeeded", prog, i, aws_cbor_type_cstr(x->t));
         if ((x->t == AWS_CBOR_TYPE_INDEF_ARRAY_START || x->t == AWS_CBOR_TYPE_INDEF_MAP_START) && aws_last_error() != AWS_ERROR_CBOR_UNEXPECTED_TYPE)
             FAILR("dec-indef-start-error", "[%s] item %d: definite-start pop on %s raised %s, documented AWS_ERROR_CBOR_UNEXPECTED_TYPE", prog, i, aws_cbor_type_cstr(x->t), aws_error_name(aws_last_error()));
+        /* a second refused pop, of yet another type, while the element is cached by the first one: still nothing consumed
+         * (added after a seeded change that decoded the NEXT element over the cached one in exactly this situation) */
+        size_t r1 = aws_cbor_decoder_get_remaining_length(d);
+        bool dummy_b = false;
+        struct aws_byte_cursor dummy_c;
+        if (x->t == AWS_CBOR_TYPE_BOOL) rc = aws_cbor_decoder_pop_next_text_val(d, &dummy_c);
+        else rc = aws_cbor_decoder_pop_next_boolean_val(d, &dummy_b);
+        if (rc == AWS_OP_SUCCESS) FAILR("dec-wrong-type-accepted", "[%s] item %d (%s): a second pop for a different type succeeded", prog, i, aws_cbor_type_cstr(x->t));
+        if (aws_cbor_decoder_get_remaining_length(d) != r1)
+            FAILR("dec-refused-pop-consumed", "[%s] item %d (%s): a refused pop moved the decoder from %zu to %zu remaining bytes", prog, i, aws_cbor_type_cstr(x->t), r1, aws_cbor_decoder_get_remaining_length(d));
     }
     int rc = AWS_OP_SUCCESS;
     uint64_t u = 0;
